@@ -73,8 +73,8 @@ at an inner node `x` of the walk
   * otherwise (chain or fork) `x` must not be in `Z`.
 `Reach D Z a x down` says: some such walk from `a` has arrived at `x`, along an edge pointing into `x`
 (`down = true`) or out of `x` (`down = false`).  This is the standard walk formulation of d-connection;
-it agrees with the path formulation (a d-connecting walk can be shortened to a d-connecting path),
-a classical fact that is not mechanised here. -/
+it agrees with the path formulation `MG.MConnPath` of Spec/SepSpec.lean (a d-connecting walk can be
+shortened to a d-connecting path): `dconn_walk_iff_path` / `mconn_walk_iff_path` in Props/C16.lean. -/
 
 /-- `x ∈ Z` or `x` has a directed path into `Z` -/
 def AnZ (D : LV) (Z : Nat → Prop) (x : Nat) : Prop := ∃ z, Z z ∧ Relation.ReflTransGen D.Edge x z
